@@ -6,7 +6,7 @@ from ..r_reaction import rule_role_zip as _rule_role_zip
 from ..r_hygiene import rule_hygiene as _rule_hygiene
 from ..r_canon import rule_bare_string_for_reaction as _rule_bare
 from ..r_construct import rule_protocol_dunders as _rule_dunders
-from ..r_reaction import rule_hash_covers_eq as _rule_hash_eq
+from ..r_reaction import rule_hash_covers_eq as _rule_hash_eq, rule_fragment_counter as _rule_fragcount
 
 LEVEL = 'other'
 
@@ -20,6 +20,7 @@ def run(ck, repo):
     rule_negative_count_slices(ck, repo, 'C15.D4-role-slices', ['chython.files.daylight.smiles:smiles'])
     _rule_role_zip(ck, repo, 'C15.D1-role-pairing', lambda f: f.module.name == 'chython.files.daylight.smiles', floor=1)
     _rule_hygiene(ck, repo, 'C15.H-dataflow-hygiene', 'C15')
+    _rule_fragcount(ck, repo, 'C15.D1-fragment-counter')
     _rule_bare(ck, repo, 'C15.D1-bare-string')
     _rule_hash_eq(ck, repo, 'C15.D3-hash-covers-eq', ['chython.periodictable.base.dynamic:DynamicElement', 'chython.containers.bonds:DynamicBond',
                                                      'chython.containers.bonds:QueryBond'])
